@@ -77,7 +77,7 @@ def floors(tier):
                         "fixed-exact(multi, fixed on a member before creation)": 4, "within-limits(multi, limited on a member before creation)": 6},
         "ops": ["do_fit", "multi.do_fit", "member.fix_parameter(before MultiFit)", "member.limit_parameter(before MultiFit)"],
         "reach": ["%s:%s" % a for a in ANCHORS],
-        "strata": ["xy", "indexed", "hist", "unbinned", "x-source", "model-relative-source", "iterative", "nonlinear", "fixed", "limited", "active-limit", "flat-start-correlated-x",
+        "strata": ["xy", "indexed", "hist", "unbinned", "x-source", "model-relative-source", "iterative", "nonlinear", "fixed", "limited", "active-limit", "flat-start-correlated-x", "staged:limited-parameter-fixed-then-released", "staged:limit-first", "staged:fix-first",
                    "multi", "multi:mixed", "multi:mixed:dynamic-first", "multi:mixed:static-first", "multi:all-dynamic", "multi:none-dynamic", "multi:x-source", "multi:model-relative-source", "multi:far-start", "multi:partly-shared-parameters",
                    "multi:member-fixed-before-creation", "multi:member-limited-before-creation", "multi:member-active-limit-before-creation"],
         "sets": {"multi-member": 12},
@@ -267,7 +267,15 @@ def gen_case(rng, tier, idx, shard, nshards):
         if amp in start and amp not in limited:
             start[amp] = 0.0
             flat = True
-    return {"property": "C06", "spec": spec, "setup": setup, "fixed": fixed, "limited": limited, "start": start, "flat_start": flat}
+    case = {"property": "C06", "spec": spec, "setup": setup, "fixed": fixed, "limited": limited, "start": start, "flat_start": flat}
+    lim_free = [nm for nm in limited if nm not in fixed]
+    if dea != "iterative" and lim_free and len([q for q in m.pnames if q not in fixed]) >= 2 and ((idx // 2) % 3 == 0 or rng.random() < 0.2):
+        # staged fit: a LIMITED parameter is held fixed (inside its limits) for a first fit, then released for the final one; the limits
+        # declared for it have to be in force in the final fit (and the result is the same as that of the direct fit)
+        nm = lim_free[int(rng.integers(0, len(lim_free)))]
+        lo, hi = limited[nm]
+        case["staged"] = {"name": nm, "value": float(np.round(lo + (hi - lo) * rng.uniform(0.2, 0.8), 5)), "order": str(rng.choice(["limit-first", "fix-first"])), "first_fit": bool(rng.random() < 0.7)}
+    return case
 
 
 # ------------------------------------------------------------------ reference objective
@@ -378,16 +386,25 @@ def run_backend(case, minimizer, before_fit=None):
     mb = MultiMember(case, minimizer) if case.get("kind") == "multi" else Member(case["spec"], case["setup"], minimizer=minimizer)
     fit = mb.fit
     on_member = case.get("declared_on_member", {})
+    st = case.get("staged")
+    if st and st["order"] == "fix-first":
+        fit.fix_parameter(st["name"], st["value"])
     for nm, v in case["fixed"].items():
         if nm not in on_member:
             fit.fix_parameter(nm, v)
     for nm, (lo, hi) in case["limited"].items():
         if nm not in on_member:
             fit.limit_parameter(nm, lo, hi)
+    if st and st["order"] != "fix-first":
+        fit.fix_parameter(st["name"], st["value"])
     if case["start"]:
-        fit.set_parameter_values(**case["start"])
+        fit.set_parameter_values(**{k: v for k, v in case["start"].items() if not (st and k == st["name"])})
     if before_fit is not None:
         before_fit(mb)
+    if st:
+        if st["first_fit"]:
+            fit.do_fit()
+        fit.release_parameter(st["name"])
     fit.do_fit()
     mb.sync_from_fit()
     return mb
@@ -428,6 +445,10 @@ def run_case(ctx, case):
     fixed, limited = case["fixed"], {k: tuple(v) for k, v in case["limited"].items()}
     if case.get("flat_start"):
         ctx.stratum("flat-start-correlated-x")
+    if case.get("staged"):
+        ctx.stratum("staged:limited-parameter-fixed-then-released")
+        ctx.stratum("staged:" + case["staged"]["order"])
+        ctx.op("release_parameter.then-do_fit")
     if fixed:
         ctx.stratum("fixed")
     if limited:
@@ -673,7 +694,7 @@ def two_attractors(case, names, pa, pb, s):
     both stay where they were started (within 0.1 reference sigma)"""
     try:
         for minimizer, start, in (("iminuit", pb), ("scipy", pa)):
-            c2 = dict(case, start={nm: float(v) for nm, v in zip(names, start) if nm not in case["fixed"]})
+            c2 = dict(case, start={nm: float(v) for nm, v in zip(names, start) if nm not in case["fixed"]}, staged=None)  # (a direct fit from there)
             mb = run_backend(c2, minimizer)
             p2 = optimum(mb)
             idx = [i for i, nm in enumerate(names) if nm not in case["fixed"] and s[i] > 0]
